@@ -350,6 +350,38 @@ impl ChildStdio {
             ChildStdio::Owned(fd) => Some(fd.0),
         }
     }
+
+    /// Makes sure the child's side of a stream doesn't sit on 0, 1 or 2, see [`fd_above_stdio`]
+    fn above_stdio(self) -> Result<Self> {
+        match self {
+            ChildStdio::Inherit => Ok(ChildStdio::Inherit),
+            ChildStdio::Owned(fd) => Ok(ChildStdio::Owned(fd_above_stdio(fd)?)),
+        }
+    }
+}
+
+/// The forked child `dup2`s its configured streams onto 0, 1 and 2 one by one.
+/// If the caller has closed some of its own standard descriptors, new pipes and files are
+/// handed those low numbers and would be overwritten by an earlier `dup2` before they're used
+/// (or `dup2(n, n)` fails), so internal descriptors are moved out of that range first.
+fn fd_above_stdio(fd: OwnedFd) -> Result<OwnedFd> {
+    const F_DUPFD_CLOEXEC: i32 = 1030;
+    if fd.0.value() > STDERR.value() {
+        return Ok(fd);
+    }
+    let res = unsafe { sc::syscall!(FCNTL, fd.0.value(), F_DUPFD_CLOEXEC, STDERR.value() + 1) };
+    if rusl::platform::is_syscall_error(res) {
+        #[expect(clippy::cast_possible_truncation, clippy::cast_possible_wrap)]
+        return Err(Error::os(
+            "`FCNTL` syscall failed duplicating a descriptor",
+            Errno::new(0 - res as i32),
+        ));
+    }
+    #[expect(clippy::cast_possible_truncation, clippy::cast_possible_wrap)]
+    let new = Fd::try_new(res as i32)
+        .map_err(|_e| Error::no_code("`FCNTL` returned a negative descriptor"))?;
+    // The original is closed when `fd` goes out of scope
+    Ok(OwnedFd(new))
 }
 
 #[non_exhaustive]
@@ -455,6 +487,8 @@ unsafe fn do_spawn<F: PreExec>(
     let sync_pipe = rusl::unistd::pipe2(OpenFlags::O_CLOEXEC)?;
     // Owned, so that both ends are closed on every return path of the parent
     let (read_pipe, write_pipe) = (OwnedFd(sync_pipe.in_pipe), OwnedFd(sync_pipe.out_pipe));
+    // The child reports failures over the write end after its `dup2`s, keep it out of their way
+    let write_pipe = fd_above_stdio(write_pipe)?;
     let child_pid = rusl::process::fork()?;
     // From this point we're two processes
     if child_pid == 0 {
@@ -701,8 +735,11 @@ fn setup_io(
     let stdout = stdout.unwrap_or(default);
     let stderr = stderr.unwrap_or(default);
     let (their_stdin, our_stdin) = stdin.to_child_stdio(true)?;
+    let their_stdin = their_stdin.above_stdio()?;
     let (their_stdout, our_stdout) = stdout.to_child_stdio(false)?;
+    let their_stdout = their_stdout.above_stdio()?;
     let (their_stderr, our_stderr) = stderr.to_child_stdio(false)?;
+    let their_stderr = their_stderr.above_stdio()?;
     let ours = StdioPipes {
         stdin: our_stdin,
         stdout: our_stdout,
